@@ -292,8 +292,8 @@ func RunParent(p *Prop, o RunOptions) int {
 	if ev.Assumptions == nil {
 		ev.Assumptions = []string{}
 	}
-	os.MkdirAll(filepath.Join(o.Verif, "evidence"), 0o755)
-	if err := WriteJSON(filepath.Join(o.Verif, "evidence", p.ID+".json"), ev); err != nil {
+	os.MkdirAll(filepath.Join(outDir(o.Verif), "evidence"), 0o755)
+	if err := WriteJSON(filepath.Join(outDir(o.Verif), "evidence", p.ID+".json"), ev); err != nil {
 		fmt.Fprintln(os.Stderr, "evidence:", err)
 	}
 	fmt.Printf("SUMMARY property=%s tier=%s cases=%d evaluated=%d distinct=%d nontrivial=%d transitions=%d exhaustive=%v known=%d violations=%d wall=%.1fs\n",
@@ -318,6 +318,15 @@ func trunc(s string, n int) string {
 	return s
 }
 
+// outDir is where evidence/ and replays/ are written: /verif, unless VERIF_OUT
+// redirects them (used when the checks are run against seeded changes).
+func outDir(verif string) string {
+	if d := os.Getenv("VERIF_OUT"); d != "" {
+		return d
+	}
+	return verif
+}
+
 func scratchRoot() string {
 	root := os.Getenv("VERIF_SCRATCH")
 	if root == "" {
@@ -337,7 +346,7 @@ type ReplayFile struct {
 }
 
 func writeReplay(verif, id, tier string, f *FoundCase) string {
-	dir := filepath.Join(verif, "replays", id)
+	dir := filepath.Join(outDir(verif), "replays", id)
 	os.MkdirAll(dir, 0o755)
 	sum := sha256.Sum256(append([]byte(f.Sig+"\x00"), f.Case...))
 	path := filepath.Join(dir, hex.EncodeToString(sum[:6])+".json")
